@@ -84,6 +84,18 @@ func runC05(env *Env, tier string) {
 			env.Fatalf("start %s: %v", s.name, err)
 		}
 	}
+	adv := func(d time.Duration) { env.AdvanceNet(w, w.WriteSig, d) }
+	// cut performs a link cut one stimulus at a time (R1): kept bytes, then EOF per side, settling between
+	cut := func(l *simnet.Link, ka, kb int, rerr error) {
+		l.CutBegin(ka, kb)
+		for l.CutDeliverNext() {
+			env.Settle()
+		}
+		l.CutFinish(0, rerr)
+		env.Settle()
+		l.CutFinish(1, rerr)
+		env.Settle()
+	}
 	start(A)
 	start(I)
 	env.Cfg["engines"] = I.cfg.String() + " | " + A.cfg.String()
@@ -112,7 +124,7 @@ func runC05(env *Env, tier string) {
 			}
 		}
 	})
-	env.Advance(1200 * time.Millisecond)
+	adv(1200 * time.Millisecond)
 
 	liveLink := func() *simnet.Link {
 		for i := len(w.Links) - 1; i >= 0; i-- {
@@ -165,8 +177,9 @@ func runC05(env *Env, tier string) {
 		now := time.Now()
 		if !halfOpenUntil.IsZero() && now.After(halfOpenUntil) {
 			if l := liveLink(); l != nil {
-				l.Cut(0, 0, nil)
+				cut(l, 0, 0, nil)
 				env.Note("half-open link cut")
+				env.Settle()
 			}
 			halfOpenUntil = time.Time{}
 		}
@@ -197,14 +210,15 @@ func runC05(env *Env, tier string) {
 					if inFlightOrQueued() {
 						faultsWithTraffic++
 					}
-					l.Cut(ka, kb, nil)
+					cut(l, ka, kb, nil)
 					env.Note("cut right after send: I->A keeps %d of %d in-flight bytes, A->I keeps %d of %d", ka, fa, kb, fb)
 					env.Stat("fault_cut_with_loss")
+					env.Settle() // one stimulus at a time: both sessions see the disconnect before anything else happens
 				}
 			}
 		case 1: // time
 			d := []time.Duration{5 * time.Millisecond, 50 * time.Millisecond, 300 * time.Millisecond, time.Second, 2500 * time.Millisecond}[ch.Choose("advance", 5)]
-			env.Advance(d)
+			adv(d)
 		case 2: // cut
 			if l := liveLink(); l != nil {
 				fa, fb := l.A.InFlight(), l.B.InFlight()
@@ -216,7 +230,7 @@ func runC05(env *Env, tier string) {
 				if ch.Chance("reset", 1, 4) {
 					rerr = fmt.Errorf("connection reset by peer")
 				}
-				l.Cut(ka, kb, rerr)
+				cut(l, ka, kb, rerr)
 				env.Note("cut: I->A keeps %d of %d, A->I keeps %d of %d, error=%v", ka, fa, kb, fb, rerr != nil)
 				env.Stat("fault_cut")
 				env.Settle()
@@ -258,13 +272,15 @@ func runC05(env *Env, tier string) {
 			}
 			fsys.ReplaceUnder(s.cfg.StoreDir+"/", img)
 			for _, l := range w.Links {
-				l.Cut(0, 0, nil)
+				if !l.IsCut {
+					cut(l, 0, 0, nil)
+				}
 			}
 			old := s.eng
 			old.Dead = true
 			old.StopAsync()
 			for k := 0; k < 100 && !old.StopFinished(); k++ {
-				env.Advance(200 * time.Millisecond)
+				adv(200 * time.Millisecond)
 			}
 			if !old.StopFinished() {
 				env.Fatalf("crashed engine did not stop")
@@ -272,6 +288,8 @@ func runC05(env *Env, tier string) {
 			s.restarts++
 			start(s)
 			env.Note("engine %s crashed (power loss=%v) and restarted on its store", s.name, power)
+			// the new session loop only starts serving at the next whole second: nothing is delivered
+			// to it before, or several events would be waiting for it at once (R1)
 			env.Advance(1100 * time.Millisecond)
 		}
 		checkOrder()
@@ -284,7 +302,7 @@ func runC05(env *Env, tier string) {
 	w.SetRefuse(5001, false)
 	if !halfOpenUntil.IsZero() {
 		if l := liveLink(); l != nil {
-			l.Cut(0, 0, nil)
+			cut(l, 0, 0, nil)
 		}
 	}
 	maxT := 2.4 * float64(hb)
@@ -297,7 +315,7 @@ func runC05(env *Env, tier string) {
 	deadline := time.Now().Add(settle)
 	done := func() bool { return len(I.got) == len(A.sent) && len(A.got) == len(I.sent) }
 	for time.Now().Before(deadline) && !done() && !env.Failed() {
-		env.Advance(250 * time.Millisecond)
+		adv(250 * time.Millisecond)
 	}
 	checkOrder()
 	if env.Failed() {
